@@ -31,9 +31,16 @@ type call struct {
 }
 
 // recAgent is the harness's YubiAgent: it records arguments and returns scripted results.
+type heldArg struct {
+	op   string
+	key  ssh.PublicKey
+	blob []byte
+}
+
 type recAgent struct {
 	mu    sync.Mutex
 	calls []call
+	held  []heldArg // keys as received (not copied): a served agent may keep them, so they must never change afterwards
 	// scripted results for the next call
 	keys  []*agent.Key
 	sig   *ssh.Signature
@@ -48,6 +55,24 @@ func (a *recAgent) rec(op string, args ...any) {
 	a.calls = append(a.calls, call{op, args})
 	a.mu.Unlock()
 }
+func (a *recAgent) hold(op string, k ssh.PublicKey) {
+	a.mu.Lock()
+	a.held = append(a.held, heldArg{op, k, append([]byte{}, k.Marshal()...)})
+	a.mu.Unlock()
+}
+
+// corrupted returns the first received key whose bytes changed after the call that delivered it.
+func (a *recAgent) corrupted() *heldArg {
+	a.mu.Lock()
+	defer a.mu.Unlock()
+	for i := range a.held {
+		if !bytes.Equal(a.held[i].key.Marshal(), a.held[i].blob) {
+			return &a.held[i]
+		}
+	}
+	return nil
+}
+
 func (a *recAgent) take() []call {
 	a.mu.Lock()
 	defer a.mu.Unlock()
@@ -61,6 +86,7 @@ func (a *recAgent) Sign(k ssh.PublicKey, d []byte) (*ssh.Signature, error) {
 	return a.SignWithFlags(k, d, 0)
 }
 func (a *recAgent) SignWithFlags(k ssh.PublicKey, d []byte, f agent.SignatureFlags) (*ssh.Signature, error) {
+	a.hold("sign", k)
 	a.rec("sign", k.Marshal(), append([]byte{}, d...), uint32(f))
 	return a.sig, a.err
 }
@@ -76,10 +102,14 @@ func (a *recAgent) Add(k agent.AddedKey) error {
 	a.rec("add", pub, cb, k.Comment, k.LifetimeSecs, k.ConfirmBeforeUse)
 	return a.err
 }
-func (a *recAgent) Remove(k ssh.PublicKey) error { a.rec("remove", k.Marshal()); return a.err }
-func (a *recAgent) RemoveAll() error             { a.rec("remove-all"); return a.err }
-func (a *recAgent) Lock(p []byte) error          { a.rec("lock", append([]byte{}, p...)); return a.err }
-func (a *recAgent) Unlock(p []byte) error        { a.rec("unlock", append([]byte{}, p...)); return a.err }
+func (a *recAgent) Remove(k ssh.PublicKey) error {
+	a.hold("remove", k)
+	a.rec("remove", k.Marshal())
+	return a.err
+}
+func (a *recAgent) RemoveAll() error      { a.rec("remove-all"); return a.err }
+func (a *recAgent) Lock(p []byte) error   { a.rec("lock", append([]byte{}, p...)); return a.err }
+func (a *recAgent) Unlock(p []byte) error { a.rec("unlock", append([]byte{}, p...)); return a.err }
 func (a *recAgent) Signers() ([]ssh.Signer, error) {
 	a.rec("signers")
 	return nil, errors.New("not used over the wire")
@@ -93,6 +123,7 @@ func (a *recAgent) Forward(req []byte) ([]byte, error) {
 	return a.raw, a.err
 }
 func (a *recAgent) AddHardCert(k ssh.PublicKey, c string) error {
+	a.hold("add-hard-cert", k)
 	a.rec("add-hard-cert", k.Marshal(), c)
 	return a.err
 }
@@ -322,6 +353,9 @@ func sequence(r *ev.Run, c *ev.Case, seqNo int) {
 		return cs
 	}
 	ok := func(op string, digest string) {
+		if h := srv.corrupted(); h != nil {
+			bad(h.op, "received-key-changes-afterwards", fmt.Sprintf("a key the served agent received in an earlier %s call no longer has the bytes it had when it was delivered (it was overwritten while serving a later request on the same connection)", h.op))
+		}
 		r.Eval(1)
 		r.Count("op "+op+" matched on both sides", 1)
 		r.Nontrivial(op + ":" + digest)
